@@ -56,7 +56,7 @@ ASSUMPTIONS = [
     "nearest-neighbour extrapolation in the two outer half bins",
     "bin-width bound is judged with relative slack 1e-12 (one rounding of the quotient inside ceil)",
 ]
-QUICK = dict(cases=1200, workers=2, timecap=45)
+QUICK = dict(cases=900, workers=2, timecap=45)
 THOROUGH = dict(cases=60000, workers=16, timecap=600)
 REQUIRED = {"diff_final": 1500, "diff_shadow": 5000, "diff_read": 300, "inv_range": 2000, "inv_binwidth": 2000,
             "calib": 2000, "set_accepted": 1000, "set_rejected": 50}
@@ -1027,8 +1027,8 @@ def fixed_cases(tier):
     ct_init = {"diffraction_order": 1, "grating": 2.e-3, "focal_length": 1.e9, "pixel_spacing": 2.e4, "diffraction_angle": 10.,
                "accommodated_spectra": [[400., 64], [500., 32]], "min_bins_per_pixel": 2, "name": "test spectrometer"}
     ct_ops = []
-    for attr, val in (("diffraction_order", 2), ("grating", 1.2e-3), ("focal_length", 5e8), ("pixel_spacing", 1.3e4),
-                      ("diffraction_angle", 25.0), ("accommodated_spectra", [[600., 512], [700., 128]]),
+    for attr, val in (("grating", 1.2e-3), ("diffraction_order", 2), ("focal_length", 5e8), ("pixel_spacing", 1.3e4),
+                      ("diffraction_angle", 25.0), ("accommodated_spectra", [[350., 512], [450., 128]]),
                       ("min_bins_per_pixel", 3), ("name", "other")):
         ct_ops += [allr, {"op": "set", "attr": attr, "value": val}]
     cases.append({"kind": "czerny", "order_seed": 3, "init": ct_init, "ops": ct_ops, "final_order": list(SPEC_OBS),
